@@ -1060,7 +1060,7 @@ func checkChord(c chordCase) ev.Outcome {
 
 func init() {
 	ev.Define("cap_pair", ev.Options{
-		Rule:  "two caps: centres special (axes, negative zeros, poles, ±π meridian) / uniform / cell-derived / related (same, antipodal, 1e-300..1e-1 apart); squared-chord radii from {empty, 0, 4−0..3 ulps, 1e-300..1e-8, 45°/60°/90°/120°/135°/180° ±0..2 ulps, uniform, and the radii that make the caps touch from inside/outside (|θA−D|, θA+D, D, π−θA, … ±0..3 ulps)}; 0-3 probes on/near either boundary (±1e-14…1e-6 relative and absolute), centres, antipodes, random. Oracle: 320-bit half-angle algebra (square roots only) for D+θB ≤ θA, θA+θB ≥ D and the smallest enclosing cap; slack in chord length with δ = 2e-15 + 1e-14·scale. Contains/Intersects/InteriorIntersects right outside ±δ; Union contains both (≤ δ) and is minimal (≤ δ), empty operand neutral; AddCap keeps centre, only grows, Contains(other) afterwards, minimal; probes robustly inside an operand are in the Union; all results valid. Non-trivial = empty/full operand, some slack within 1e-9 of zero, or identical/antipodal centres.",
+		Rule:  "two caps: centres special (axes, negative zeros, poles, ±π meridian) / uniform / cell-derived / related (same, antipodal, 1e-300..1e-1 apart); squared-chord radii from {empty, 0, 4−0..3 ulps, 1e-300..1e-8, 45°/60°/90°/120°/135°/180° ±0..2 ulps, uniform, and the radii that make the caps touch from inside/outside (|θA−D|, θA+D, D, π−θA, … ±0..3 ulps)}; 0-3 probes on/near either boundary (±1e-14…1e-6 relative and absolute), centres, antipodes, random. Oracle: 320-bit half-angle algebra (square roots only) for D+θB ≤ θA, θA+θB ≥ D and the smallest enclosing cap; slack in chord length with δ = 2e-15 + 1e-14·scale. Contains/Intersects/InteriorIntersects right outside ±δ; Union contains both (≤ δ) and is minimal (≤ δ), empty operand neutral; AddCap keeps centre, only grows, Contains(other) afterwards, minimal, and - strictly, with no tolerance, because both sides are the library's own ContainsPoint - contains the point of the added cap farthest from the receiver's centre and up to 4 rim points next to it whenever the added cap contains them (count addcap_far_rim_probes); probes robustly inside an operand are in the Union; all results valid. Non-trivial = empty/full operand, some slack within 1e-9 of zero, or identical/antipodal centres.",
 		Quick: 60000, Thorough: 4000000}, genCapPair, checkCapPair)
 	ev.Define("cap_point_ops", ev.Options{
 		Rule:  "one cap (as in cap_pair; radii also chosen so that the cap just touches / just covers a pole), 1-4 probes, an expansion distance ≥ 0, constructor arguments (angle, height, area incl. negative and beyond-full). ContainsPoint/InteriorContainsPoint right outside ±δ of the boundary (320-bit chord lengths), exact for empty/full; Complement: antipodal centre, r2 = 4−r2, exactly one of cap/complement contains a probe ≥3δ from the boundary; Expanded: same centre, radius chord length within δ of θ+dist, never shrinks, keeps contained probes; Radius(); AddPoint contains the point, minimal; RectBound valid, contains the centre and every probe ≥1e-13 inside; CapFromCenterAngle/Height/Area/Point, EmptyCap, FullCap. Non-trivial = empty/full/singleton cap or a cap touching/covering a pole.",
